@@ -1268,4 +1268,158 @@ class ReuseKind(Kind):
         return {'case': case, 'observed': o}
 
 
-KINDS = [PromoteKind(), CombKind(), FirstOrderKind(), TimeFreqKind(), FftModulusKind(), RowIndepKind(), DecoratorKind(), ReuseKind()]
+# ------------------------------------------------------------------------------------------------ kind: several objects alive at once
+
+class MultiObjectKind(ReuseKind):
+    """State shared BETWEEN objects: 2-4 preprocess objects are constructed first, then called in an order different from the
+    construction order (older after newer, interleaved, each twice); every output is compared with the spec of ITS OWN configuration."""
+    name = 'several_objects'
+    shard = 20
+    rule = ('2-4 preprocess objects built first (combinations with different operations in the same and in different loops / frames / distances / '
+            'precisions; CenterOn / StandardizeOn / ToPower with different parameters; time-frequency classes with different frames and modes; mixed), '
+            'then called older-after-newer, interleaved and twice each; each output compared with the spec of its own configuration (the model of an '
+            'object does not depend on what else was built); non-trivial = outputs of at least two different objects returned')
+
+    def _comb_base(self, rng, op, wmin, shape, prec=None):
+        loop, f1, f2, dist = shape
+        mean = None
+        if op == 'CenteredProduct' and rng.random() < 0.4:
+            mean = rng.choice([int_given(rng, 1, 'uint8', scalar_only=True, small=True), {'dtype': 'float64', 'values': [rng.randint(-64, 64) / 8]}])
+        return {'fam': 'comb', 'op': op, 'f1': f1, 'f2': f2, 'mode': 'same' if loop == 'same' else 'full', 'distance': dist,
+                'precision': prec or rng.choice(['float32', 'float32', 'float64']), 'mean': mean}
+
+    def _comb_shape(self, rng, wmin):
+        loop = rng.choice(['one', 'two', 'same', 'distance'])
+        if loop == 'one':
+            return (loop, rng.choice([F_ELL, f_slice(0, wmin), random_frame(rng, wmin, False)]), F_NONE, None)
+        if loop == 'two':
+            return (loop, random_frame(rng, wmin, False), random_frame(rng, wmin, False), None)
+        if loop == 'same':
+            l = [rng.randint(0, wmin - 1) for _ in range(rng.randint(1, 3))]
+            return (loop, f_list(l), f_list([rng.randint(0, wmin - 1) for _ in l]), None)
+        return (loop, rng.choice([F_ELL, f_slice(0, wmin)]), F_NONE, rng.randint(1, wmin + 1))
+
+    def _fo_base(self, rng):
+        kind = rng.choice(['ToPower', 'CenterOn', 'StandardizeOn', 'ToPower', 'CenterOn', 'square', 'center', 'serialize_bit'])
+        b = {'fam': 'fo', 'kind': kind, 'precision': rng.choice(['float32', 'float64'])}
+        if kind == 'ToPower':
+            b['power'] = rng.randint(0, 3)
+        if kind == 'CenterOn' and rng.random() < 0.8:
+            b['mean'] = rng.choice([int_given(rng, 1, 'uint8', scalar_only=True, small=True), {'dtype': 'float64', 'values': [rng.randint(-64, 64) / 8]}])
+        if kind == 'StandardizeOn':
+            if rng.random() < 0.7:
+                b['mean'] = {'dtype': 'float64', 'values': [rng.randint(-64, 64) / 8]}
+            if rng.random() < 0.7:
+                b['std'] = {'dtype': 'float32', 'values': [rng.randint(1, 64) / 8]}
+        return b
+
+    def _tf_base(self, rng, wmin):
+        op = rng.choice(TF_OPS)
+        f1 = rng.choice([F_NONE, f_slice(0, wmin), f_slice(0, max(wmin - 1, 2)), f_list(list(range(wmin - 1, -1, -1)))])
+        return {'fam': 'tf', 'op': op, 'mode': rng.choice(list(TF_MODES)), 'f1': f1, 'f2': F_NONE}
+
+    def _order(self, rng, k):
+        pat = rng.random()
+        if pat < 0.3:
+            return list(range(k - 1, -1, -1)) + list(range(k))            # newest first, then construction order
+        if pat < 0.5:
+            return [i for i in range(k)] + [i for i in range(k)]          # each twice, interleaved
+        o = list(range(k)) * 2
+        rng.shuffle(o)
+        if o[0] == k - 1 and k > 1:                                        # start with an OLDER object
+            o[0], o[-1] = o[-1], o[0]
+        return o
+
+    def _call(self, rng, base, w):
+        if base['fam'] == 'tf':
+            dt = rng.choice(DTYPES)
+            c = tf_case(rng, base['op'], base['mode'], base['f1'], F_NONE, dt, w, rng.randint(1, 3))
+            return {k: c[k] for k in ('dtype', 'width', 'rows', 'layout') if k in c}
+        dt = rng.choice(DTYPES)
+        if base.get('kind') == 'serialize_bit' and is_float_dt(dt):
+            dt = 'int16'
+        small = dt == 'float16' or base.get('op') == 'CenteredProduct' or base['fam'] == 'fo'
+        c = {'dtype': dt, 'width': w, 'rows': rand_rows(rng, dt, rng.randint(1, 3), w, 'small' if small else 'mix'), 'layout': pick_layout(rng)}
+        return tame_wide(c) if base.get('kind') in ('standardize', 'StandardizeOn') else c
+
+    def gen(self, rng, tier):
+        thorough = tier != 'quick'
+        # the four operations in the SAME loop and on the same frames, every loop: the oldest object is called last and first
+        for shape_kind in ('one', 'two', 'same', 'distance'):
+            for ops in (COMB_OPS, COMB_OPS[::-1], ['Product', 'Difference'], ['AbsoluteDifference', 'CenteredProduct', 'Product']):
+                w = rng.randint(3, 5)
+                shape = {'one': ('one', F_ELL, F_NONE, None), 'two': ('two', f_slice(0, 2), f_slice(1, 3), None),
+                         'same': ('same', f_list([0, 1]), f_list([2, 0]), None), 'distance': ('distance', F_ELL, F_NONE, 2)}[shape_kind]
+                objs = [self._comb_base(rng, op, w, shape, prec='float32') for op in ops]
+                order = list(range(len(objs))) + list(range(len(objs) - 1, -1, -1))
+                yield {'objects': objs, 'calls': [dict(self._call(rng, objs[i], w), obj=i) for i in order]}
+        for _ in range(500 if thorough else 60):
+            k = rng.randint(2, 4)
+            w = rng.randint(2, 6)
+            fam = rng.random()
+            if fam < 0.55:
+                ops = [rng.choice(COMB_OPS) for _ in range(k)]
+                if len(set(ops)) == 1:
+                    ops[0] = COMB_OPS[(COMB_OPS.index(ops[0]) + 1) % 4]
+                shared = self._comb_shape(rng, w)
+                objs = [self._comb_base(rng, op, w, shared if rng.random() < 0.65 else self._comb_shape(rng, w)) for op in ops]
+            elif fam < 0.75:
+                objs = [self._fo_base(rng) for _ in range(k)]
+            elif fam < 0.9:
+                objs = [self._tf_base(rng, w) for _ in range(k)]
+            else:
+                objs = [rng.choice([lambda: self._comb_base(rng, rng.choice(COMB_OPS), w, self._comb_shape(rng, w)), lambda: self._fo_base(rng),
+                                    lambda: self._tf_base(rng, w)])() for _ in range(k)]
+            calls = []
+            for i in self._order(rng, k):
+                wc = w if rng.random() < 0.7 else rng.randint(w, w + 2)
+                calls.append(dict(self._call(rng, objs[i], wc), obj=i))
+            yield {'objects': objs, 'calls': calls}
+
+    def _sub(self, case):
+        return [dict(case['objects'][c['obj']], **{k: v for k, v in c.items() if k != 'obj'}) for c in case['calls']]
+
+    def run(self, case):
+        objs = []
+        with warnings.catch_warnings():
+            warnings.simplefilter('ignore')
+            for b in case['objects']:                 # ALL objects are constructed before the first call
+                try:
+                    objs.append(build(b))
+                except Exception as e:
+                    objs.append(e)
+        obs = []
+        for c, sc in zip(case['calls'], self._sub(case)):
+            obj = objs[c['obj']]
+            if isinstance(obj, Exception):
+                o = {'raised': type(obj).__name__, 'msg': str(obj)[:120]}
+            else:
+                try:
+                    o = run_pre(sc, obj)
+                except Exception as e:
+                    o = {'raised': type(e).__name__, 'msg': str(e)[:120]}
+            if sc['fam'] == 'tf':
+                o = tf_oracle(sc, o)
+            elif sc.get('kind') == 'fft_modulus':
+                o = fm_oracle(sc, o)
+            obs.append(o)
+        return {'calls': obs}
+
+    def nontrivial(self, case, obs):
+        return len({c['obj'] for c, o in zip(case['calls'], obs.get('calls', [])) if 'rows' in o}) >= 2
+
+    def features(self, case, obs):
+        fams = sorted({b['fam'] for b in case['objects']})
+        return {'families': '+'.join(fams), 'objects': len(case['objects']), 'calls': len(case['calls'])}
+
+    def tags(self, case, obs):
+        return ['several_objects', 'objs_' + '+'.join(sorted({str(b.get('op', b.get('kind'))) for b in case['objects']}))[:80]]
+
+    def shrink(self, case):
+        calls = case['calls']
+        if len(calls) > 1:
+            for i in range(len(calls) - 1, -1, -1):
+                yield dict(case, calls=calls[:i] + calls[i + 1:])
+
+
+KINDS = [PromoteKind(), CombKind(), FirstOrderKind(), TimeFreqKind(), FftModulusKind(), RowIndepKind(), DecoratorKind(), ReuseKind(), MultiObjectKind()]
